@@ -31,10 +31,13 @@ class RandomTask(T.Task):
     def __init__(self, cc, use_registry, pins):
         from props.c06 import get_index_contract, luhn_contract
         from props.ibantasks import table
+        self.nocountry = cc.startswith("?")
+        cc = cc.lstrip("?")
         self.cc = cc
         self.use_registry = str(use_registry) in ("1", "True", "true")
         self.pins = tuple(p for p in (pins.split(",") if isinstance(pins, str) else pins) if p)
-        self.name = f"BBAN.random[{cc}, use_registry={self.use_registry}, pinned={list(self.pins)}]"
+        self.name = f"BBAN.random[{'no country -> ' if self.nocountry else ''}{cc}, use_registry={self.use_registry}, " \
+                    f"pinned={list(self.pins)}]"
         self.entry = table()[cc]
         self.L = self.entry["bban_length"]
         self.cls = tuple(CC.classes(self.entry["bban_spec"]))
@@ -70,6 +73,11 @@ class RandomTask(T.Task):
                 seq = args[0]
                 if seq and isinstance(seq[0], dict) and "bank_code" in seq[0]:
                     return task.abstract_bank(I2, seq)
+                if seq and all(isinstance(x, str) for x in seq):
+                    # the no-country form draws the country: any member; what matters for reproducibility is that the
+                    # ORDER of the sequence does not depend on the hash seed
+                    task.hash_ordered_draw = list(I2.hash_ordered)
+                    return task.cc if task.cc in seq else seq[0]
                 raise Unsupported("Random.choice on an unexpected sequence")
             if isinstance(owner, OracleRandom):
                 raise Unsupported(f"Random.{name} is not covered by an assumed contract")
@@ -138,9 +146,10 @@ class RandomTask(T.Task):
     def code(self, I, inp):
         from schwifty import BBAN
         self.chosen = None
-        r = I.call(I.getattr(BBAN, "random"), [self.cc],
+        self.hash_ordered_draw = None
+        r = I.call(I.getattr(BBAN, "random"), ["" if self.nocountry else self.cc],
                    dict(random=OracleRandom(0), use_registry=self.use_registry, **{p: inp[p] for p in self.pins}))
-        return ("BBAN", r, self.chosen)
+        return ("BBAN", r, self.chosen, self.hash_ordered_draw)
 
     def custom_obligations(self, I, inp, code_paths, cobs):
         out = []
@@ -153,8 +162,11 @@ class RandomTask(T.Task):
                 out.append((f"path {i}: the only admitted error is GenerateRandomOverflowError (got {o.name})", pc,
                             z3.BoolVal(o.name == "GenerateRandomOverflowError")))
                 continue
-            _, r, bank = o
+            _, r, bank, hod = o
             n_ret += 1
+            if self.nocountry:
+                out.append((f"path {i}: the country is drawn from a sequence whose order does not depend on the hash seed "
+                            f"(hash-ordered str sets iterated before the draw: {hod})", pc, z3.BoolVal(not hod)))
             chars = lift_str(payload(r)).chars if not isinstance(payload(r), str) else [z3.IntVal(ord(c)) for c in payload(r)]
             cc = path["heap"].get((id(r), "country_code"))
             out.append((f"path {i}: the BBAN is of the requested country", pc, z3.BoolVal(cc == self.cc)))
@@ -186,6 +198,9 @@ class RandomTask(T.Task):
     def native_agree(self, inp):
         from schwifty import BBAN, IBAN
         from schwifty.exceptions import GenerateRandomOverflowError
+        if self.nocountry:
+            res, err = hashseed_runs([""])
+            return (res is not None and not res[0]), (res and res[0][:1]), "identical output under every hash seed"
         pins = {p: inp[p] for p in self.pins}
         seed = inp.get("seed", 0)
         try:
@@ -273,7 +288,7 @@ def main(seed, tier):
     from props import common, ibantasks
     t0 = time.time()
     tab = ibantasks.table()
-    specs = []
+    specs = [("props.c13", "RandomTask", ("?DE", 1, "")), ("props.c13", "RandomTask", ("?GB", 0, ""))]
     for cc in sorted(tab):
         specs += [("props.c13", "RandomTask", v) for v in variants(cc, tab[cc])]
     results = common.run_tasks(specs, seed, tier)
@@ -288,7 +303,7 @@ def main(seed, tier):
         status="discharged" if not deny else "refuted", backend="pyvc call log (all symbolic paths)", secs=0.0,
         witness={"calls": deny} if deny else None,
         detail="" if not deny else f"replayed natively: the symbolic run executed {deny}")]))
-    res, err = hashseed_runs(sorted(tab)[:: (2 if tier == "thorough" else 6)] + ["PL", "SI", "DE", "GB"])
+    res, err = hashseed_runs(sorted(tab)[:: (2 if tier == "thorough" else 6)] + ["PL", "SI", "DE", "GB", ""])
     extra = []
     if res is None:
         results.append(dict(task="hash seed runs", obligations=[], functions={}, files={}, paths=0,
